@@ -11,10 +11,27 @@ from .ctx import to_py
 from .models.formats import FORMATS, float_close
 
 
+_DELIMITED = {}
+
+
 def get_buffer_type(name):
     if name is None:
         return None
     import bionumpy as bnp
+    if name.startswith("@delimited:"):
+        # a user-defined table type read through get_bufferclass_for_datatype (header line, custom delimiter)
+        if name not in _DELIMITED:
+            from bionumpy.bnpdataclass import bnpdataclass
+            from bionumpy.io.delimited_buffers import get_bufferclass_for_datatype
+
+            @bnpdataclass
+            class Peak4:
+                chromosome: str
+                start: int
+                stop: int
+                score: int
+            _DELIMITED[name] = get_bufferclass_for_datatype(Peak4, delimiter=name.split(":", 1)[1], has_header=True)
+        return _DELIMITED[name]
     import bionumpy.io.one_line_buffer as olb
     import bionumpy.io.delimited_buffers as db
     import bionumpy.io.vcf_buffers as vb
